@@ -26,4 +26,4 @@ git apply $SRC/patch.diff
 rm -f $D/repo/$DIR/$(basename $DEMO)
 fi
 cd $VERIF_ROOT
-echo "== our check"; VERIF_REPO=$D/repo ./check.sh $PROP $TIER 2>&1 | grep -E "VIOLATION|KNOWN|violations=|error|^  " | head -8
+echo "== our check"; VERIF_EVIDENCE_DIR=$D/evidence VERIF_REPO=$D/repo ./check.sh $PROP $TIER 2>&1 | grep -E "VIOLATION|KNOWN|violations=|error|^  " | head -8
